@@ -346,8 +346,7 @@ theorem step_progress {votes : Profile} {cfg : Cfg} {n : Nat} (hh : TotalHyp cfg
       simp only [noProgress, Bool.and_eq_false_imp, decide_eq_true_eq]
       intro h0
       have := congrArg List.length h0
-      rw [List.length_map, sortedKeys_length] at this
-      simp at this
+      rw [List.length_map, sortedKeys_length, List.length_nil] at this
       omega
     rw [countStep_of_next_ok (inp := selectorInput votes n) hne hnext hnp]
     exact .done _ rfl
